@@ -212,6 +212,10 @@ META_KINDS = {
     "hash-only": lambda ctx: json.dumps({"database_hash": ctx["hash"]}).encode(),
     "version-only": lambda ctx: json.dumps({"version": ctx["version"]}).encode(),
     "hash-null": lambda ctx: json.dumps({"version": ctx["version"], "database_hash": None}).encode(),
+    # the current hash in another spelling (upper case, zero-padded, a leading plus): not what this version writes, hence not "current"
+    # (seed C15-k: hashes compared as numbers)
+    "hash-uppercase": lambda ctx: json.dumps({"version": ctx["version"], "database_hash": ctx["hash"].upper() if ctx["hash"].upper() != ctx["hash"] else "0" + ctx["hash"]}).encode(),
+    "hash-zero-padded": lambda ctx: json.dumps({"version": ctx["version"], "database_hash": "00" + ctx["hash"]}).encode(),
 }
 INDEX_KINDS = ["valid", "foreign", "foreign-same-size", "foreign-words-layout", "foreign-other-fields", "missing", "empty"]
 
@@ -278,7 +282,7 @@ def states(ctx):
             S["sibling-version-%s-index-%s" % (v, kind)] = st_sibling(v, kind)
     for mk in META_KINDS:
         for ik in INDEX_KINDS:
-            if ik in ("foreign-words-layout", "foreign-other-fields") and mk in ("old-hash", "version-only", "hash-null"):
+            if ik in ("foreign-words-layout", "foreign-other-fields") and mk in ("old-hash", "version-only", "hash-null", "hash-uppercase", "hash-zero-padded"):
                 # meta.json naming THIS version over an index in another layout: the layout is a function of the version, so no
                 # release can have written this pair, and the tool (which trusts a matching version) cannot tell - not demanded
                 continue
@@ -346,6 +350,15 @@ def shard(p):
                             pass
                         acc.count("damage:" + kind)
                         prior_ok = check_invariant(acc, ctx, insp, home, h, "damage", judge=False) is not None
+                        continue
+                    if fault == "inmemory-session":
+                        # an in-memory session of the same tool with the same data directory configured (the test suite, a library user):
+                        # it must leave the on-disk state alone - in particular it must not vouch for an index it never touched
+                        # (seed C14-k: `meta.json` written whenever the index directory exists)
+                        r = run_driver(ctx["bin"], home, [{"op": "db", "mode": "in_memory"}, {"op": "query", "q": ctx["probes"][0]}])
+                        acc.count("inmemory_sessions_between_starts")
+                        if prior_ok:
+                            check_invariant(acc, ctx, insp, home, h, "fault " + fault)
                         continue
                     if fault.startswith("concurrent"):
                         concurrent_start(acc, ctx, home, h, kill_first=fault.endswith("kill"))
@@ -558,6 +571,11 @@ def run(tier, seed):
         DAMAGE = ["damage:index-missing", "damage:index-empty", "damage:index-no-tantivy-meta", "damage:meta-missing", "damage:meta-garbage"]
         for _ in range(600 if tier == "quick" else 6000):
             hs.append({"state": rng.choice(snames), "faults": [rng.choice(CRASHPOINTS), rng.choice(DAMAGE), rng.choice(CRASHPOINTS)], "second_clean": True})
+        for s in combos + snames:
+            # an in-memory session between the prior state (or an interrupted rebuild) and the next on-disk start
+            hs.append({"state": s, "faults": ["inmemory-session"], "second_clean": True})
+            if rng.random() < 0.5:
+                hs.append({"state": s, "faults": [rng.choice(["dir_created", "index_created", "before_commit", "meta_invalidated"]), "inmemory-session"], "second_clean": True})
         for s in snames:
             hs.append({"state": s, "faults": ["concurrent"]})
             hs.append({"state": s, "faults": ["concurrent-kill"]})
